@@ -118,21 +118,25 @@ ADDENDA = {
  'C05': 'Empty chunks, forks of a parser between chunks, results stamped/overwritten between retrievals and data bytes that look like text are replayed as additional histories.',
  'C06': 'check_rtsysex: sysex payloads with real-time bytes at every offset; check_concat: concatenations parse back; results are overwritten between probes.',
  'C07': 'Files are also built both ways (constructor arguments and assignment after construction), saved twice with an edit in between, given one-shot (generator) tracks, frozen twins, every charset, and times that cannot be stored.',
- 'C08': 'Header words (format, ntrks, division) are decided by the reference decoder for every type/track-count; every META_EVENTS entry is hand-encoded and loaded; a custom meta spec is registered and stored.',
+ 'C08': 'Where save() writes is specified by SaveTarget.tla (TLC: end-relative seeks violate Contiguous) and the write/seek/tell calls of real saves into targets that already hold content are validated by TLC (SaveTargetTrace). Header words (format, ntrks, division) are decided by the reference decoder for every type/track-count; every META_EVENTS entry is hand-encoded and loaded; a custom meta spec is registered and stored.',
  'C09': 'A custom meta spec, text values in every charset, bytes aliasing of data, += extension and data given in every carrier (incl. generators) are replayed against the same layouts.',
  'C10': 'Beyond the model-derived schedules, portrun.explore enumerates every schedule with <= K preemptions BY RE-EXECUTION on the real ports (echo, device, ioport, multi, pqueue, socket, userloop, sharedbuf) and validates each history against PortCore; vf/conc.py explores re-entrant calls with sys.settrace.',
  'C11': 'Close races (close/close, close/send, close/receive, close/iterate) are explored at line level with <= K preemptions on the real ports; half-closed IOPort, multi-member bursts, dead peers and failed writes (SendFail / FailedWriteIsNoOp in the specification) are replayed.',
  'C12': 'Inputs include note-off twins, track_name, UnknownMetaMessage, frozen messages, a million-tick delta and equal events / fractional times; the inputs must be left unchanged.',
- 'C13': 'Tempo edits in place (incl. tempo 0), a consumer that mutates what it receives, long rests, type-2 files from every origin, time signatures and ticks_per_beat assigned later are replayed against the exact-rational model.',
+ 'C13': 'The tempo helpers are explored with two threads at BYTECODE granularity (sched.Scheduler(opcode_files=...)). Tempo edits in place (incl. tempo 0), a consumer that mutates what it receives, long rests, type-2 files from every origin, time signatures and ticks_per_beat assigned later are replayed against the exact-rational model.',
  'C14': 'Frozen twins, default and assigned meta attributes (every documented attribute), text values, a 1 501-message track and awkward float times are round-tripped; MidiFile repr/eval compared structurally.',
- 'C15': 'Plans are also run concurrently (threads) and through text values, copy overrides and hash of decoded values; unchecked objects (Bad values) follow the specified refusal of copy-with-overrides.',
+ 'C15': 'MsgHeap has a Read action (hash, str, format_as_string, dict, bytes, comparison, pickle ...) with the heap UNCHANGED; the driver compares the exact attribute dictionary after it. Plans are also run concurrently (threads) and through text values, copy overrides and hash of decoded values; unchecked objects (Bad values) follow the specified refusal of copy-with-overrides.',
  'C16': 'Held track lists, += / extend, a failed save before a save, edits during a pass (play / iteration) and play without meta messages are added to the histories.',
- 'C17': 'Nested calls (a track or file object that itself loads/saves) follow the stack in the specification (SavedChain); text in 9 charsets, str subclasses, with-blocks, copy/pickle of files and a custom text meta spec are executed.',
+ 'C17': 'CharsetScope has the fault kind "interrupt" (a BaseException raised by the file object or a lazy track) at every position. Nested calls (a track or file object that itself loads/saves) follow the stack in the specification (SavedChain); text in 9 charsets, str subclasses, with-blocks, copy/pickle of files and a custom text meta spec are executed.',
  'C18': 'Big polls, two connections, multi-port bursts, sending to a dead peer, descriptor 0, a client replaced between polls and the PortServer accept path (loopback) are executed on real sockets with 8 s timeouts.',
  'C19': 'Failing writes come first (a failed write must not leave a file that reads as something else), mtime is pinned, and lists containing meta messages with data are refused as specified.',
  'C20': 'Real API names, IntFlag-like arguments, native IOPort failure, kwargs persistence, concurrent first use (fresh interpreters, on-disk module), toggling use_environ and set_backend(Backend(use_environ=False)) are executed.',
 }
-GENERAL = (' Before every replay batch core.stir() runs failing and half-finished operations of every feature in the same process, so state leaked by one feature shows in another.')
+GENERAL = (' Before every replay batch core.stir() runs failing and half-finished operations of every feature in the same process, so state leaked by one feature shows in another.'
+           ' After the check, vf/variants.py re-runs a small battery of conformance items for this property in fresh interpreters (plain, -O, -OO, -W error, -X dev,'
+           ' C locale, ASCII stdout, DEBUG logging, and a virtual wall clock installed before mido is imported), and vf/checks/extra11.py / extra12.py run the'
+           ' driver-level sub-checks named c<NN>_* for this property (DESIGN.md section 15, rounds 11 and 12); these are samples along axes the specifications'
+           ' do not have, not explorations.')
 
 
 def build(not_applicable):
